@@ -67,12 +67,25 @@ def shaped(ctx, g):
             if p["kind"] == "struct":
                 p["ptr"] = True
         out.append(("nilstruct" + verb.lower(), i, calls_for(g, i, 2, nil_struct=1.0) + calls_for(g, i, 1)))
-    # F_pathArgBrace
+    # F_pathArgBrace (deterministic witness + random brace arguments)
+    i = g.iface(name="Client", nmethods=1, ctx=True, nph=2)
+    m = i["methods"][0]
+    m.update({"verb": "GET", "verbtext": "Get", "path": "/{a}/x/{b}", "quoted": True, "alias": [], "tail": "",
+              "params": [{"name": "a", "kind": "scalar", "type": "string", "ptr": False, "role": "path"},
+                         {"name": "b", "kind": "scalar", "type": "string", "ptr": False, "role": "path"}]})
+    i["structs"] = []
+    calls = []
+    for k, (a, b) in enumerate([("{b}", "x"), ("x{b}y", "Z z"), ("{a}", "q"), ("plain", "{a}"), ("{", "}")]):
+        calls.append({"method": m["name"], "m": m, "json": None,
+                      "go": ['vrest.TaggedCtx("t%d")' % k, restgen.go_string(a), restgen.go_string(b)],
+                      "sexp": [[Q("a"), ["s", Q(a)]], [Q("b"), ["s", Q(b)]], [Q("ctx"), ["ctx", Q("t%d" % k)]]]})
+    m["ctxpos"] = 0
+    out.append(("brace", i, calls))
     i = g.iface(name="Client", nmethods=1, ctx=True, nph=2)
     for p in i["methods"][0]["params"]:
         if p.get("role") == "path":
             p["type"] = "string"
-    out.append(("brace", i, calls_for(g, i, 4, brace=0.9)))
+    out.append(("brace2", i, calls_for(g, i, 4, brace=0.9)))
     # body verb with a nil pointer-to-struct: body `null` (WF)
     i = g.iface(name="Client", nmethods=1, ctx=True, verb="PATCH", struct=True)
     for p in i["methods"][0]["params"]:
